@@ -105,7 +105,7 @@ EXPLAINS = {
 
 def match(pid, fail):
     what = str(fail.get("what", ""))
-    if pid in ("C07",) and "which is not a valid value for type 'enum" in what and "runtime error: load of value" in what:
+    if pid in ("C07",) and "which is not a valid value for type '" in what and "runtime error: load of value" in what:
         # UBSan -fsanitize=enum at the switch over a decoded enum/discriminator
         return "cpp-enum-load-out-of-range"
     if pid == "C09" and fail.get("check") == "swap" and fail.get("returned_rounded_to_struct_alignment") \
